@@ -72,6 +72,9 @@ fn apply(rng: &mut Rng, tree: &HNode, tr: Tr, scale: f64) -> Applied {
                     // scaled weights and all their partial sums are exact
                     Tr::WeightsTinyUnit => (2.0f64).powi(-520) * (2.0f64).powi(520 - rng.range(1030, 1060) as i32),
                     // scaling down could flush a subnormal weight to zero: only upwards then
+                    // weights near the top of the range: scaling up would overflow to +inf
+                    Tr::WeightsPow2 if outs.iter().any(|(w, _)| *w > 1e290) => (2.0f64).powi(-(rng.range(0, 5) as i32)),
+                    Tr::WeightsAny if outs.iter().any(|(w, _)| *w > 1e290) => *rng.pick(&[1.0, 0.3, 0.1, 1.0 / 3.0]),
                     Tr::WeightsPow2 if outs.iter().any(|(w, _)| *w < 1e-290) => (2.0f64).powi(rng.range(0, 5) as i32),
                     Tr::WeightsPow2 => (2.0f64).powi(rng.range(0, 10) as i32 - 5),
                     Tr::WeightsAny => *rng.pick(&[1.0, 0.3, 3.0, 0.1, 7.0, 1.0 / 3.0]),
@@ -194,6 +197,20 @@ pub fn run(ctx: &mut Ctx) {
             // rounded on the subnormal grid, which a power-of-two scaling shifts: equal within
             // rounding (margin rule), not bit for bit
             ap.exact = false;
+        }
+        {
+            // a chance node whose weights sum to more than f64::MAX is normalised along another
+            // path of arithmetic than its scaled-down twin: equal within rounding, not bit for bit
+            fn max_weight(n: &HNode) -> f64 {
+                match n {
+                    HNode::Term(_) => 0.0,
+                    HNode::Chance { outs, .. } => outs.iter().map(|(w, k)| w.max(max_weight(k))).fold(0.0, f64::max),
+                    HNode::Player { acts, .. } => acts.iter().map(|(_, k)| max_weight(k)).fold(0.0, f64::max),
+                }
+            }
+            if max_weight(&tree) > 1e290 {
+                ap.exact = false;
+            }
         }
         let trn = format!("{:?}", tr);
         let new = match Prepared::new(&ap.tree) {
